@@ -30,7 +30,7 @@ fn sig(e: &Value) -> String {
                 }
             }
             let mut m = serde_json::Map::new();
-            for k in ["name", "nameraw", "attrs", "ns", "sc", "chc", "removed", "ops", "post", "fail"] {
+            for k in ["name", "nameraw", "attrs", "ns", "sc", "chc", "removed", "ops", "post", "fail", "q"] {
                 if let Some(v) = c.get(k) {
                     m.insert(k.to_string(), v.clone());
                 }
